@@ -138,10 +138,10 @@ def jobs(tier, seed):
     for n in (3, 4, 5, 6) if tier == "thorough" else (3, 4, 5):
         shapes = loop_body_shapes(n)
         for idx in range(len(shapes)):
-            if n == 6 and idx % 8 != seed % 8:
-                continue  # 1960 bodies: VERIF_SEED selects which eighth is explored (each exhaustively)
+            if n == 6 and idx % 16 != seed % 16:
+                continue  # 1960 bodies: VERIF_SEED selects which sixteenth is explored (each exhaustively)
             for order in ("fwd", "rev"):
-                for t, m in ((1, None), (2, 1)) if (tier == "thorough" or n < 5) else ((1, None),):
+                for t, m in ((1, None), (2, 1)) if ((tier == "thorough" and n < 6) or n < 5) else ((1, None),):
                     limit = DEFAULT_MAX if m is None else m
                     # quick: the 98 five-stage bodies in delivery order only (all orders for 3 and 4 stages)
                     fifo = tier != "thorough" and n >= 5
